@@ -19,9 +19,11 @@ type GenGraph struct {
 	parent map[string]int
 }
 
-func loadGen(path string) *GenGraph {
+func loadGen(path string) *GenGraph { return loadGenTag(path, "T") }
+
+func loadGenTag(path, tag string) *GenGraph {
 	g := &GenGraph{}
-	readGenLines(path, "T", func(js string) {
+	readGenLines(path, tag, func(js string) {
 		var t GT
 		if err := json.Unmarshal([]byte(js), &t); err != nil {
 			panic(err)
